@@ -77,6 +77,7 @@ type c17cfg struct {
 	inflight []string
 	to       int
 	slowOld  bool   // the deployed target answers its probes slower than the probe interval
+	during   string // "pause" | "stop": the measured command (on another service) is issued while this command is still draining s1
 	flapOld  string // "down" | "up": the deployed target's probe result changes its state at the very tick at which the command starts
 }
 
@@ -167,6 +168,12 @@ func c17Configs(tier string) []c17cfg {
 			cfgs = append(cfgs, c17cfg{cmd: x[0], pre: x[1], scripts: []pscript{ok}, to: 0, flapOld: f})
 		}
 	}
+	// commands on another service (and list) while a pause/stop of s1 is waiting out its drain timeout
+	for _, d := range []string{"pause", "stop"} {
+		for _, x := range []string{"remove-other", "deploy-other", "list", "deploy-new"} {
+			cfgs = append(cfgs, c17cfg{cmd: x, pre: "active", scripts: []pscript{ok}, inflight: []string{"never"}, to: 0, during: d})
+		}
+	}
 	cfgs = append(cfgs, c17cfg{cmd: "deploy", pre: "absent", scripts: []pscript{neverSlow}, to: 2})
 	cfgs = append(cfgs, c17cfg{cmd: "deploy", pre: "active", scripts: []pscript{ok, neverSlow}, to: 2})
 	cfgs = append(cfgs, c17cfg{cmd: "rollout", pre: "active", scripts: []pscript{slowS, neverSlow}, to: 2})
@@ -239,7 +246,7 @@ func c17Scenario(c c17cfg) *Scenario {
 			}
 			w.RolloutSet("s1", 0, []string{"v"})
 		}
-		if c.cmd == "deploy-conflict" {
+		if c.cmd == "deploy-conflict" || c.cmd == "remove-other" || c.cmd == "deploy-other" {
 			if r := w.Deploy(args("s2", []string{"xa:80"}, []string{"b.example.com"})); r.Err != nil {
 				w.Note("setup: %v", r.Err)
 				return
@@ -298,6 +305,16 @@ func c17Scenario(c c17cfg) *Scenario {
 			}
 		}
 		w.S.SetWindow(true)
+		if c.during != "" {
+			vsched.GoTagged("cmd", func() {
+				if c.during == "pause" {
+					w.Pause("s1", to.D, 20*time.Second)
+				} else {
+					w.Stop("s1", to.D, "down")
+				}
+			})
+			time.Sleep(300 * time.Millisecond)
+		}
 		if c.flapOld != "" {
 			// start the command at the very instant of the deployed targets' third probe (whose result flips their state)
 			time.Sleep(t0 + 2*to.I - w.Now())
@@ -322,6 +339,12 @@ func c17Scenario(c c17cfg) *Scenario {
 				cmdObs = w.Resume("s1")
 			case "remove":
 				cmdObs = w.Remove("s1")
+			case "remove-other":
+				cmdObs = w.Remove("s2")
+			case "deploy-other":
+				cmdObs = w.Deploy(args("s2", newNames, []string{"b.example.com"}))
+			case "deploy-new":
+				cmdObs = w.Deploy(args("s3", newNames, []string{"c.example.com"}))
 			case "rollout-set":
 				cmdObs = w.RolloutSet("s1", 50, nil)
 			case "rollout-stop":
@@ -354,7 +377,7 @@ func c17Scenario(c c17cfg) *Scenario {
 		wantErr := false
 		replaced := false
 		switch c.cmd {
-		case "deploy", "rollout", "deploy-conflict":
+		case "deploy", "rollout", "deploy-conflict", "deploy-other", "deploy-new":
 			worst := time.Duration(0)
 			for _, s := range c.scripts {
 				th, ok := firstHealthy(s.steps, to, to.T+to.P)
@@ -423,7 +446,7 @@ func c17Scenario(c c17cfg) *Scenario {
 		}
 		bound := start
 		switch c.cmd {
-		case "deploy", "rollout", "deploy-conflict":
+		case "deploy", "rollout", "deploy-conflict", "deploy-other", "deploy-new":
 			bound = start + to.T + to.D
 		case "pause", "stop":
 			bound = start + to.D
@@ -443,6 +466,8 @@ func c17Scenario(c c17cfg) *Scenario {
 			for _, n := range newNames {
 				silent[n] = true
 			}
+		case c.cmd == "remove-other" || (c.cmd == "deploy-other" && cmd.Err == nil):
+			silent["xa:80"] = true
 		case c.cmd == "deploy" && replaced:
 			silent["oa:80"] = true
 		case c.cmd == "rollout" && replaced:
